@@ -279,6 +279,10 @@ fn other_cases() -> Vec<MCase> {
         push(key, "<not a url>", None, nu(Some("<not a url>"), None), "bracketed_invalid_url");
         push(key, "https://rachel.url/r?x=1", None, nu(None, Some("https://rachel.url/r?x=1")), "valid_url");
         push(key, "smb://host/share", None, nu(None, Some("smb://host/share")), "valid_url");
+        // more than one bracketed group, brackets inside the brackets: not the `Name <Url>` form, all of it is the name
+        push(key, "Rachel <https://rachel.url/recipes> <https://mirror.url>", None, nu(Some("Rachel <https://rachel.url/recipes> <https://mirror.url>"), None), "name_invalid_url");
+        push(key, "Rachel <https://one.url><https://two.url>", None, nu(Some("Rachel <https://one.url><https://two.url>"), None), "name_invalid_url");
+        push(key, "Rachel <https://rachel.url/a<b>", None, nu(Some("Rachel <https://rachel.url/a<b>"), None), "name_invalid_url");
         // a URL that carries another URL after its scheme (archived page, redirect)
         push(key, "https://web.archive.org/web/2019/https://example.com/apple-pie", None, nu(None, Some("https://web.archive.org/web/2019/https://example.com/apple-pie")), "valid_url");
         push(key, "Grandma's blog <https://web.archive.org/web/2019/https://example.com/apple-pie>", None, nu(Some("Grandma's blog"), Some("https://web.archive.org/web/2019/https://example.com/apple-pie")), "name_valid_url");
@@ -683,6 +687,50 @@ fn validator_for_one_key(ctx: &mut Ctx, cfg: &Cfg) {
     }
 }
 
+/// A validator that only comments on an entry (returns a warning, leaves the check options alone): the standard reading
+/// of that entry — its own warning when the value is outside the documented forms, the servings it gives to the recipe —
+/// is what it is without the validator, in both metadata syntaxes.
+fn validator_that_only_comments(ctx: &mut Ctx, cfg: &Cfg) {
+    use cooklang::analysis::{CheckResult, ParseOptions};
+    for (key, value) in [("servings", "12"), ("servings", "2|4"), ("serves", "3"), ("time", "a while"), ("time", "1h30m"), ("servings", "many"), ("locale", "english"), ("tags", "a, b")] {
+        for syntax in 0..2 {
+            let input = if syntax == 0 { format!("---\n{key}: {value}\n---\nMix @flour{{600%g}}.\n") } else { format!(">> {key}: {value}\nMix @flour{{600%g}}.\n") };
+            let case = Case::new("metadata", input.as_str(), Extensions::all().bits(), cfg.name).with(json!({"form": "validator_that_only_comments", "key": key}));
+            ctx.begin(&case);
+            let Ok(plain) = crate::core::guarded(|| cfg.parser.parse(&input)) else { continue };
+            for verdict in 0..2 {
+                let opts = ParseOptions {
+                    recipe_ref_check: None,
+                    metadata_validator: Some(Box::new(move |k, _v, _o| {
+                        if k.as_str() == Some(key) {
+                            if verdict == 0 { CheckResult::Warning(vec!["noted by the application".into()]) } else { CheckResult::Error(vec!["refused by the application".into()]) }
+                        } else {
+                            CheckResult::Ok
+                        }
+                    })),
+                };
+                let with = match crate::core::guarded(|| cfg.parser.parse_with_options(&input, opts)) {
+                    Ok(r) => r,
+                    Err(p) => {
+                        ctx.panic_violation(&case, "parse_with_options", p);
+                        continue;
+                    }
+                };
+                let std_warnings = |r: &cooklang::RecipeResult| -> Vec<String> { r.report().warnings().map(|w| w.message.to_string()).filter(|m| m.contains(key) && !m.contains("application")).collect() };
+                let (a, b) = (std_warnings(&plain), std_warnings(&with));
+                let (sa, sb) = (plain.output().map(|o| o.servings().map(|s| s.to_vec())), with.output().map(|o| o.servings().map(|s| s.to_vec())));
+                let (ma, mb) = (plain.output().map(|o| o.metadata.servings()), with.output().map(|o| o.metadata.servings()));
+                if a != b || sa != sb || ma != mb {
+                    ctx.violation(&case, "metadata", "validator_that_only_comments|standard_reading_changed", format!("[{}] validator verdict {verdict}: warnings of the standard check {b:?} (plain {a:?}); recipe servings {sb:?} (plain {sa:?}); metadata servings {mb:?} (plain {ma:?})", cfg.name));
+                } else {
+                    ctx.count("form:validator_that_only_comments");
+                    ctx.nontrivial(&case);
+                }
+            }
+        }
+    }
+}
+
 pub fn run(ctx: &mut Ctx) {
     let (rc1, k1) = renamed_converter(true);
     let (rc2, k2) = renamed_converter(false);
@@ -703,6 +751,7 @@ pub fn run(ctx: &mut Ctx) {
             composed_time(ctx, cfg);
             time_mapping(ctx, cfg);
             validator_for_one_key(ctx, cfg);
+            validator_that_only_comments(ctx, cfg);
         }
         let mut rng = Rng::new(ctx.seed ^ crate::core::hash64(cfg.name.as_bytes()) ^ ctx.shard as u64);
         let mut cases = if ctx.shard == 0 { duration_cases(&mut rng, &cfg.tu, n_random) } else { duration_cases(&mut rng, &cfg.tu, n_random).into_iter().filter(|c| c.form == "number_unit_pairs").collect() };
